@@ -241,7 +241,8 @@ def oracle(run: runner.Run, oc: Outcome) -> None:
                        f"widgets stream only at {nxt}", actor=actor)
         # ---- (3) own record: renewed in time, removed on graceful exit ----
         mine = [t for t in run.transitions if t.rkey == rd.key and t.actor == actor]
-        touches = [t.t for t in mine if t.after is not None and ((t.after.get('status') or {}).get(ident)) is not None]
+        touches = [t.t for t in mine if t.after is not None and ((t.after.get('status') or {}).get(ident)) is not None
+                   and t.t <= t_gone]   # (what a process writes while it is being torn down is not a renewal)
         for x, y in zip(touches, touches[1:]):
             if y - x > life + EPS:
                 oc.add('C13/record-lapsed', 'renewed-late',
